@@ -36,6 +36,7 @@ HARNESS = {
     '/repo/internal/db/zz_c08_filter_laws_test.go': f'{V}/harness/db/zz_c08_filter_laws_test.go',
     '/repo/internal/db/zz_c08_aggregate_laws_test.go': f'{V}/harness/db/zz_c08_aggregate_laws_test.go',
     '/repo/internal/db/zz_c08_order_version_test.go': f'{V}/harness/db/zz_c08_order_version_test.go',
+    '/repo/internal/db/zz_c08_commits_signed_test.go': f'{V}/harness/db/zz_c08_commits_signed_test.go',
     '/repo/internal/db/zz_c19_active_test.go': f'{V}/harness/db/zz_c19_active_test.go',
     '/repo/internal/db/zz_c11_update_test.go': f'{V}/harness/db/zz_c11_update_test.go',
 }
@@ -457,10 +458,10 @@ if prop == 'C08':
         print(f'VIOLATION property={prop} replay={rp} no-failing-input-found')
         sys.exit(1)
     fl += res2.get('problems') or []
-    pv, _ = gotest('^TestGovcC08OrderWithVersionSelection$', {}, 300)
+    pv, _ = gotest('^TestGovcC08(OrderWithVersionSelection|CommitsOfSignedDocWithoutSignatureField)$', {}, 300)
     if pv.returncode != 0:
-        fl.append({'schema': 'no index', 'law': 'no request fails or panics', 'what': ' '.join(l.strip() for l in pv.stdout.splitlines() if 'C08:' in l)[:600] or 'order with a _version selection: the probe failed'})
-    summary['bound'] += '; listing laws: order + limit + offset = slice of the ordered listing, _count = number of listed rows, _sum/_min/_max/_avg = arithmetic over the listed non-null values (the average under limit/offset only when no value is null), groups partition the listing and _count/_sum of a group are over its members, several aggregates of one group with different filters are each computed over their own filtered members (3 x 3 filter pairs, both orders of appearance); 7 filters x 4 orders x 7 limit/offset pairs, plain and indexed, plus one ordered listing that selects the _version history; every ordered listing is ordered by its first key and has the same key sequence with and without the indexes (%d evaluations)' % res2['cases']
+        fl.append({'schema': 'no index', 'law': 'no request fails or panics', 'what': ' '.join(l.strip() for l in pv.stdout.splitlines() if 'C08:' in l)[:600] or 'order with a _version selection / commits of a signed history: the probe failed'})
+    summary['bound'] += '; listing laws: order + limit + offset = slice of the ordered listing, _count = number of listed rows, _sum/_min/_max/_avg = arithmetic over the listed non-null values (the average under limit/offset only when no value is null), groups partition the listing and _count/_sum of a group are over its members, several aggregates of one group with different filters are each computed over their own filtered members (3 x 3 filter pairs, both orders of appearance); 7 filters x 4 orders x 7 limit/offset pairs, plain and indexed, plus one ordered listing that selects the _version history and the commit history of a signed document requested without the signature field; every ordered listing is ordered by its first key and has the same key sequence with and without the indexes (%d evaluations)' % res2['cases']
     summary['cases'] += res2['cases']
     summary['distinct_nontrivial'] = summary['cases']
     summary['violating_histories'] = len(fl)
